@@ -3,9 +3,66 @@
 import json, subprocess
 
 CHECKS = {
- "C03": dict(engine="E1-lattice", technique="bounded-exhaustive lattice enumeration of (robot, joint vector) on the real FK code against an independent link-chain model",
-   text="Every point of a finite product lattice (geometries incl. b!=0/a2!=0 x all 64 sign patterns x offsets x joint values incl. |q|>>2pi) is executed on forward and forward_with_joint_poses and compared with FK_ref (elementary-transform chain, itself cross-validated on 2048 recorded cases of an independent C++ implementation). Lattice-relative coverage statement; a closed-form formula has no hidden state so a lattice hitting every parameter with zero/non-zero/negative values and every sign pattern exercises every term.",
-   note="Trusted: FK_ref (harness, hand-written f64 matrices), nalgebra quaternion<->matrix conversion, the lattice as printed in evidence.", ref="5/C03"),
+ "C01": dict(engine="E1-lattice", ref="5/C01",
+   technique="bounded-exhaustive lattice enumeration of (robot, pose class, entry point, previous) on the real IK, each answer pushed through an independent FK model",
+   text="Every point of robots R (geometry x signs x offsets x dof 5/6) x poses (FK_ref of a joint lattice incl. J5 in {0, pi, +-1e-9, +-thr/2} and stretched elbow, scaled-out unreachable poses, wrist centre on the J1 axis, NaN/inf/1e308/denormal in every pose component, un-normalised quaternions) x 11 entry-point/previous variants is executed; every returned vector must be finite, map through FK_ref onto the request within 1e-6 m / 1e-6 rad (point+axis for 5-DOF), be normalised for plain inverse, and be absent for unreachable poses; panics are caught and judged.",
+   note="Trusted: FK_ref, the arm-reach oracle used to label poses unreachable, nalgebra conversions. Lattice-relative."),
+ "C02": dict(engine="E1-lattice", ref="5/C02",
+   technique="bounded-exhaustive lattice enumeration with an oracle-computed branch count (independent arm IK) and closure re-solves",
+   text="For every lattice configuration outside oracle-computed singularity/reach margins: q is among inverse(FK_ref(q)), the number of answers equals 2 x the number of arm branches an independent positional arm IK finds, wrist-flipped twins are present, no duplicates, and every answer's pose yields a set of the same size. Both 4- and 8-answer poses must occur or the run is void.",
+   note="Trusted: FK_ref and the closed-form arm oracle in the harness; margins 1e-3 (sin), 1e-6 (reach cosine), 1 mm (shoulder)."),
+ "C03": dict(engine="E1-lattice", ref="5/C03",
+   technique="bounded-exhaustive lattice enumeration of (robot, joint vector) on the real FK code against an independent link-chain model",
+   text="Every point of a finite product lattice (geometries incl. b!=0/a2!=0 x all 64 sign patterns x offsets x joint values incl. |q|>>2pi) is executed on forward and forward_with_joint_poses and compared with FK_ref (elementary-transform chain, cross-validated in the same run on 2048 recorded cases of an independent C++ implementation); prefix dependence is checked bit-exactly, link separations to 1e-12.",
+   note="Trusted: FK_ref (hand-written f64 matrices), nalgebra quaternion<->matrix conversion, the lattice as printed in evidence."),
+ "C04": dict(engine="E1-lattice + E2-graph", ref="5/C04",
+   technique="lattice enumeration of continuation calls plus explicit-state search (stateright BFS, run twice) over joint-space trajectories whose transitions call the real solver",
+   text="E1: robots x poses x a previous-lattice in [-2pi,2pi]^6 (incl. CONSTRAINT_CENTERED) x limit sets x weights x both continuation entry points: nearest 2pi representative, documented cost non-decreasing, every plain-inverse answer present, previous first when it realises the pose. E2: all reachable nodes of a 6-D joint lattice (J4/J6 across +-2pi, ~40k states, ~350k transitions) under 12 single-joint moves; each transition calls inverse_continuing(FK_ref(next), previously returned vector); invariant: first answer is the trajectory point; differential: same node via two paths gives the same answer.",
+   note="State identity in E2 is the lattice node (returned vectors within 1e-9 are merged; checked on every transition). A coarser-than-dense lattice is reported as a machinery error, not a verdict."),
+ "C05": dict(engine="E1-lattice", ref="5/C05",
+   technique="bounded-exhaustive lattice around every multiple of pi of J5 (both frames: model angle and raw joint value) against a geometric axis-collinearity oracle; continuity lattice with oracle-computed preconditions",
+   text="Detection: robots (signs x offsets incl. J5 offset) x t5 = k*pi + d for k in -3..3 and d on both sides of the 0.01 degree band x wrappers; Some(A) iff the FK_ref axes of joints 4 and 6 are within the band of collinear. Continuity: exactly singular poses whose arm sensitivity and other-branch conditions (computed by the oracle) qualify: previous comes back first, a singular answer moves J4 and J6 together.",
+   note="Band edge +-5% skipped. Continuity is demanded only under the two preconditions named in the property, computed independently of the solver."),
+ "C06": dict(engine="E1-lattice", ref="5/C06",
+   technique="bounded-exhaustive lattice over robots (dof 5/6), stacks, J6 alphabet and the four entry points against the stack's reference FK",
+   text="Every answer's tool point and tool axis are checked through the reference FK of the stack, J6 must be bit-equal to the caller's value (0 for plain inverse on a 5-DOF robot), the originating J1..J5 must be present and the list non-empty on regular poses.",
+   note="Trusted: FK_ref and the stack model. Lattice-relative."),
+ "C07": dict(engine="E1-lattice + E2-graph", ref="5/C07",
+   technique="exhaustive enumeration of (from, to, angle) on a degree lattice of [-720,720]^3 against arc membership by definition; BFS over constructor/update_range sequences",
+   text="All (from,to) pairs x all angles on the 5-degree (thorough 3-degree) lattice, a third of the angles moved off-lattice by irrational shifts, three constructors, neighbours wide or from==to; oracle = arc membership modulo 2pi; plus centre accepted, filter == pointwise compliant, and all constructor/update_range sequences to depth 3 compared field by field with a fresh constructor.",
+   note="Lattice points on an arc end are skipped except an exactly decidable family; reversed ranges with from = to (mod 360) are ambiguous in the statement and skipped."),
+ "C08": dict(engine="E2-graph + E1-lattice", ref="5/C08",
+   technique="breadth-first enumeration of wrapper stacks (depth <= 3 thorough) with a differential oracle: constrained stack vs the identical unconstrained stack filtered by arc membership",
+   text="For every stack over {tool, base, frame, parallelogram} around a constrained robot (dof 5/6), every limit set (window, wrapping, wide, from==to, excluding, around the singular recovery), weight, pose, previous and entry point: answers == compliant subset of the unconstrained answers (both inclusions, mod 2pi); constraints() delegated field by field.",
+   note="Parallelogram limits are read on the wrapped robot's joints (weaker reading). Singular answers are not compared under CONSTRAINT_CENTERED (reference differs by design)."),
+ "C09": dict(engine="E2-graph + E1-lattice", ref="5/C09",
+   technique="breadth-first enumeration of every tool/base/frame sequence of length 1..3 over an isometry alphabet; per stack the full delegation matrix of trait entry points is executed and compared with the composed reference",
+   text="258 (quick) / 3615 (thorough) stacks x robots x joint vectors: forward, link poses, singularity, constraints, and the four inverse entry points (round trip through the reference FK, continuation order/representative, J6 contracts bit-exact); LinearAxis (3 axes) and Gantry forward via verification-only constructors.",
+   note="5-DOF clauses are evaluated on stacks whose tools/frames are axial, as the property presupposes."),
+ "C15": dict(engine="E1-lattice", ref="5/C15",
+   technique="lattice enumeration of postures/stacks/steps; the private Jacobian is reconstructed row by row through the public API and compared with the geometric Jacobian of the reference link model; linear maps decided on a basis",
+   text="J (via torques_from_vector(e_k)) vs axis x lever / axis from FK_ref within eps*reach + 4e-15*reach/eps; J_geo * velocities(X) = X on the 6 basis twists and 2 mixed ones; torques = J_geo^T F; isometry, vector and fixed entry points agree.",
+   note="Postures with condition number >= 1e3 are skipped (counted)."),
+ "C16": dict(engine="E1-lattice", ref="5/C16",
+   technique="exhaustive enumeration of all 30 (driven, coupled) pairs x scalings x stack variants on the real wrapper against the substitution model",
+   text="forward and link poses bit-equal to the inner robot at the substituted joint vector and equal to the composed reference; every answer of the four inverse entry points maps back onto the request; P over P composes.",
+   note="Trusted: FK_ref, stack model."),
+ "C17": dict(engine="E1-lattice", ref="5/C17",
+   technique="exhaustive enumeration of triangles x rigid motions x per-point perturbations around the 5 mm tolerance, degenerate triples, and forward_transformed cases",
+   text="Exact images: frame maps the points, is a proper rotation and equals the generating motion; perturbations of 6/50 mm are rejected as NotIsometry, 1/4 mm accepted; collinear/coincident triples give ColinearPoints with the right side; Frame::translation; forward_transformed pose, soundness and order.",
+   note="Tolerances scale with the distance from the origin and the triangle height (conditioning)."),
+ "C18": dict(engine="E3-env", ref="5/C18",
+   technique="exhaustive enumeration of scripted RNG answers (ScriptedRng hook) over a lattice of ranges; piecewise-linear argument makes the draw alphabet complete per range",
+   text="(from,to) on a 5-degree (thorough 3-degree) lattice of [-360,360]^2 x unit draws {0, 2^-52, i/64, 1-2^-52, both sides of the segment switch point}; the real sampler consumes exactly these raw draws; result must lie on the arc and be accepted by compliant(); no panic.",
+   note="Relies on rand 0.9's u64 -> f64 mapping ((r >> 12) / 2^52), guarded by the draw-count check."),
+ "C19": dict(engine="E1-lattice", ref="5/C19",
+   technique="exhaustive enumeration of parameter records, documented syntax variants, all 1-/2-edit deviations of the documented file and all token strings up to a length bound",
+   text="3072 records + the robots axis round-trip through to_yaml/from_yaml_file; 720+ documented-format variants parse to the harness's own expectation; 23k edited documents, 168k (thorough 3.4M) token strings and special byte strings never panic.",
+   note="J6 sign of a 5-DOF record is not compared (the loader documents that it blocks it)."),
+ "C20": dict(engine="E1-lattice", ref="5/C20",
+   technique="exhaustive enumeration of generated URDF/xacro descriptions over layout, naming, nesting and joint-order permutations, with rotating sign/limit/copy axes; error-path enumeration",
+   text="Extracted parameters equal the printed decimals, signs follow the axes, limits follow each syntax, the built solver's compliance equals arc membership (no <limit> => unconstrained), conflicting copies are errors; missing joints and token corruptions never panic.",
+   note="5-DOF detection is not judged (not demanded by the statement)."),
 }
 
 def main():
